@@ -379,7 +379,7 @@ Definition enc_atom (a : oatom (T:=Q)) : string * string * list Z :=
 Definition enc (r : res (result (T:=Q))) :=
   match r with
   | Ok x => (0, enc_src (r_sg x), map enc_atom (r_atoms x), match r_cell x with Some l => flat_map qz l | None => [] end)
-  | Err EFormat => (1, [], [], []) | Err EKey => (2, [], [], []) | Err EUnsupported => (3, [], [], [])
+  | Err EFormat => (1, [], [], []) | Err EEscapes => (2, [], [], []) | Err EUnsupported => (3, [], [], [])
   end.
 Definition pi_q : Q := @PI@.
 Definition eps_q : Q := @EPS@.
@@ -411,7 +411,7 @@ def decode(toks):
     first = next(it)
     status = first[1]
     if status != 0:
-        return {"status": ("ok", "format", "key", "unsupported")[status], "atoms": [], "src": None, "cell": []}
+        return {"status": ("ok", "format", "escapes", "unsupported")[status], "atoms": [], "src": None, "cell": []}
     rest = list(it)
     src = (rest[0][1], rest[1][1])
     atoms = []
